@@ -327,8 +327,20 @@ def deep_canon(o, seen=None):
     return ["?", type(o).__name__, repr(o)[:80]]
 
 
-def run_real(stream, chunks):
-    p = RealBanana()
+class RealStorageBanana(RealBanana):
+    """the receiving half of foolscap.storage: its root unslicer keeps the table that `reference` sequences are resolved in"""
+    from foolscap import storage as _storage
+    unslicerClass = _storage.StorageRootUnslicer
+
+    def receiveChild(self, obj, ready_deferred):
+        if ready_deferred is None:
+            self.receivedObject(obj)
+        else:
+            ready_deferred.addBoth(lambda res: self.receivedObject(obj))
+
+
+def run_real(stream, chunks, cls=None):
+    p = (cls or RealBanana)()
     pos = 0
     escaped = None
     for n in chunks:
